@@ -179,6 +179,26 @@ Exec(s, st, fuel) ==
          ELSE IF j = 0 THEN Fail(st, "UndeclaredVariable")
          ELSE IF st.blocks[i].curs[s.c].vs = <<>> THEN Ok(st)
          ELSE Ok([st EXCEPT !.blocks[j].vars[s.x] = st.blocks[i].curs[s.c].vs[1]])
+    \* the cursor statements one by one: the innermost cursor of that name is meant, whatever its state - an outer cursor
+    \* of the same name that is open does not answer for an inner one that is closed
+    [] s.k = "curopen" ->  \* OPEN c
+         LET i == FindCur(st.blocks, s.c, 1) IN
+         IF i = 0 THEN Fail(st, "UndeclaredCursor")
+         ELSE IF st.blocks[i].curs[s.c].open THEN Fail(st, "CursorOpen")
+         ELSE Ok([st EXCEPT !.blocks[i].curs[s.c].open = TRUE])
+    [] s.k = "curclose" -> \* CLOSE c
+         LET i == FindCur(st.blocks, s.c, 1) IN
+         IF i = 0 THEN Fail(st, "UndeclaredCursor") ELSE Ok([st EXCEPT !.blocks[i].curs[s.c].open = FALSE])
+    [] s.k = "curfirst" -> \* FETCH FIRST c INTO @x
+         LET i == FindCur(st.blocks, s.c, 1)  j == FindVar(st.blocks, s.x, 1) IN
+         IF i = 0 THEN Fail(st, "UndeclaredCursor")
+         ELSE IF ~st.blocks[i].curs[s.c].open THEN Fail(st, "CursorClosed")
+         ELSE IF j = 0 THEN Fail(st, "UndeclaredVariable")
+         ELSE Ok([st EXCEPT !.blocks[j].vars[s.x] = st.blocks[i].curs[s.c].vs[1]])
+    [] s.k = "curisopen" -> \* PRINT CURSOR c IS OPEN
+         LET i == FindCur(st.blocks, s.c, 1) IN
+         IF i = 0 THEN Fail(st, "UndeclaredCursor")
+         ELSE Ok([st EXCEPT !.out = Append(@, IF st.blocks[i].curs[s.c].open THEN "TRUE" ELSE "FALSE")])
     [] s.k = "whilein" ->  \* OPEN c; WHILE [VAR] @x IN c DO body END WHILE; CLOSE c
          LET i == FindCur(st.blocks, s.c, 1) IN
          IF i = 0 THEN Fail(st, "UndeclaredCursor")
